@@ -43,6 +43,10 @@ impl Board {
             soft_assert!((pieces & self.pieces(Piece::Pawn) & no_pawn_mask).is_empty());
         }
         
+        // The kings can't be next to each other
+        let white_king = self.king(Color::White);
+        soft_assert!((get_king_moves(white_king) & self.pieces(Piece::King)).is_empty());
+
         let (our_checkers, _) = self.calculate_checkers_and_pins(!self.side_to_move());
         // Opponent can't be in check while it's our turn
         soft_assert!(our_checkers.is_empty());
